@@ -20,7 +20,6 @@ package c08
 // `kf_reuse` is their witness.
 
 import (
-	"bytes"
 	"fmt"
 	"math/rand"
 	"reflect"
@@ -62,14 +61,14 @@ func openFindings(c *core.Ctx) map[string]bool {
 type session struct {
 	h     *hist
 	r     *rand.Rand
-	objs  []interface{}          // running number - 1 -> the object
-	items map[interface{}]*item  // the object -> what the driver knows about it (shapes of its maps)
-	num   map[interface{}]int    // the object -> its running number
-	cur   []*item                // the items of the stream at hand, in written order
-	pres  []bool                 // ... whether all optional sections were present when each was written
-	data  []byte                 // the stream at hand
-	out   *gio.DataOutputX       // ... when the items go into one DataOutputX
-	own   bool                   // every item is encoded by an entry point that hands back a slice of its own
+	objs  []interface{}         // running number - 1 -> the object
+	items map[interface{}]*item // the object -> what the driver knows about it (shapes of its maps)
+	num   map[interface{}]int   // the object -> its running number
+	cur   []*item               // the items of the stream at hand, in written order
+	pres  []bool                // ... whether all optional sections were present when each was written
+	data  []byte                // the stream at hand
+	out   *gio.DataOutputX      // ... when the items go into one DataOutputX
+	own   bool                  // every item is encoded by an entry point that hands back a slice of its own
 	fail  bool
 	steer map[string]bool
 	nste  *int
@@ -258,7 +257,7 @@ func (s *session) held(kind string) []int {
 
 // ------------------------------------------------------------ optional sections
 
-// sectionsAll makes every optional section of the object present / absent, or (mode 2) each one by a coin
+// sections makes every optional section of the object present / absent, or (mode 2) each one by a coin
 func sections(r *rand.Rand, it *item, mode int) {
 	on := func() bool {
 		switch mode {
@@ -857,5 +856,3 @@ func (h *hist) kfReuse(r *rand.Rand, k kindDef) {
 	}
 	s.readAll(func(int, *item) int { return first })
 }
-
-var _ = bytes.Equal
